@@ -613,6 +613,7 @@ func TestC53(t *testing.T) {
 		m.Note("observed (accepted, not a violation): an Open-type function returned its authentication error, without panic, for an authentic input presented with a forbidden overlap; see the forbidden_overlap_failed_closed:<function> counters (asm AEAD Open with dst overlapping only the tag: the assembly writes the plaintext before it compares the tag, and the alias check excludes the tag bytes)")
 	}
 	c53Concurrent(m, paths())
+	c53Retention(m)
 	nAEAD := 4 // Seal/Open x chacha/xchacha per path
 	for _, p := range []string{"asm", "generic", "purego"} {
 		m.Gate(p+"_exact_calls", nAEAD*len(c53Lens)*2, "AEAD in-place calls (dst = in[:0]) on the "+p+" path")
